@@ -17,7 +17,7 @@ from ..cfg import cfg_of
 from ..effects import Effects
 from ..fold import ExtVal, Inst, is_unknown
 from ..spec import tables as T
-from .common import (JWE_PRODUCE, can_reach_exit, const_value, entries, impls, is_const, scope_of, sites_calling, succ_by_label)
+from .common import (resolve_all, JWE_PRODUCE, can_reach_exit, const_value, entries, impls, is_const, scope_of, sites_calling, succ_by_label)
 from .c05 import _resolve_local
 from .c20 import shared_classes
 
@@ -135,7 +135,7 @@ def r18_1(ctx) -> None:
             if site is not None and not site.callees and any(_is_csprng(x) for x in site.ext):
                 gen += 1
                 ctx.ok("R18.1", f"{pb.short} :: {a.id} = {norm(dn)[:40]}", "generated salt input = CSPRNG call")
-            elif any(isinstance(x, ast.Name) and x.id == "headers" for x in ast.walk(dn)):
+            elif all(".headers()['p2s']" in t_ for t_ in resolve_all(eng, pb, dn)):
                 ctx.ok("R18.1", f"{pb.short} :: {a.id} = {norm(dn)[:40]}", "caller-chosen header value (not generated)")
             else:
                 ctx.fail("R18.1", pb, dn, "a PBES2 salt input that is neither the caller's header value nor CSPRNG output", construct=f"PBES2 salt input {norm(dn)[:60]}")
